@@ -27,6 +27,7 @@ RESET = 'bert_e.workflow.gitwaterflow.commands:_reset'
 
 def base_env():
     env = handlers.base_env(PROPERTY)
+    env.intrinsics[branch_of] = lambda I, name: br(I, name)
     env.exc_types['LossyResetWarning'] = X.LossyResetWarning
     env.ref_attr_hooks[('Br', 'src_branch')] = lambda I, r: I.ghost['cur_src']
     env.model('Br', 'includes_commit', trusted='git merge-base --is-ancestor')(
@@ -50,6 +51,28 @@ def gib_setup(I, args):
     setup_common(I, args)
     job = args['job']
     I.ghost['cur_src'] = I.get_attr(I.get_attr(job, 'git'), 'src_branch')
+
+
+def gib_setup_two(I, args):
+    """two targets, concrete list: the generator is unrolled and its result is a concrete list"""
+    gib_setup(I, args)
+    job = args['job']
+    casc = I.get_attr(I.get_attr(job, 'git'), 'cascade')
+    I.set_attr(casc, 'dst_branches', I.alloc_list(tuple(br(I, I.fresh('target%d' % i, 'str')) for i in range(2))))
+
+
+def ens_gib_complete(job, out, G):
+    # reset examines (and deletes) what this returns: an existing w/<version>/<source> of ANY target, the first
+    # included, must be among the results
+    dsts = job.git.cascade.dst_branches
+    src = job.git.src_branch
+    return not out.returned or all(
+        not branch_of(wname(d.version, src.name)).exists()
+        or any(b.name == wname(d.version, src.name) for b in out.value) for d in dsts)
+
+
+def branch_of(name):
+    raise NotImplementedError('symbolic only')
 
 
 def ens_gib_total(job, out, G):
@@ -128,7 +151,10 @@ def contracts(env):
                            ('only_documented_outcomes', ens_outcomes),
                            ('complete_only_after_the_pruning_push', ens_complete_after_publication)],
                   covers=['raise:ResetComplete', 'raise:LossyResetWarning'])
-    return [gib, rs] + forwarders(env)
+    gib2 = Contract(GIB, args={'job': 'HJob'}, setup=gib_setup_two, returns='seq[Br]', label=GIB + '[2 targets]',
+                    ensures=[('every_existing_integration_branch_of_every_target_is_found', ens_gib_complete)],
+                    covers=['return'])
+    return [gib, gib2, rs] + forwarders(env)
 
 
 def ens_gib_callsite_guarded(job, out, G):
@@ -171,6 +197,21 @@ def fwd_setup(I, args):
 
 def extra(rep, tier, seed, budget):
     from pyvc.cli import write_replay
+    # "the next evaluation rebuilds the integration branches": the answer to reset / force_reset must always be posted,
+    # otherwise the command comment stays the last word and is executed again at every evaluation (fact shared with C10)
+    import bert_e.workflow.gitwaterflow as _gwf
+    from bert_e.reactor import Reactor as _Reactor
+    from specs import c10 as _c10, shared_facts as _sf
+    _gwf.setup({})
+    _facts = []
+    for _key in ('reset', 'force_reset'):
+        _cmd = _Reactor.get_commands().get(_key)
+        for _cls in sorted(_c10.raised_classes(_cmd.handler), key=lambda c: c.__name__) if _cmd else []:
+            if issubclass(_cls, X.TemplateException):
+                _facts.append(('command %r answers with %s: always re-postable (dont_repeat_if_in_history == 0)' % (_key, _cls.__name__),
+                               _cls.dont_repeat_if_in_history == 0, {'command': _key, 'class': _cls.__name__,
+                                                                     'dont_repeat_if_in_history': _cls.dont_repeat_if_in_history}))
+    _sf.add_facts(rep, _facts, 'answers of reset / force_reset are re-postable')
     try:
         from bounded import c15_reset
     except Exception as e:
